@@ -30,8 +30,8 @@ def run(tier, replay=None):
         "every request is issued when its segment is available (the order of availability check and fault injection is not "
         "fixed by the text)",
         "audio $Time$ requests under start_<t> are not issued (refused 410 by the C04 finding findRefSegMetaFromTime)",
-        "a request not answered within 10 s counts as not answered (status 0); the driver then stops that scenario and, if it was "
-        "the canary of the class 'start time != 0, window at stream start', skips the other scenarios of the class",
+        "a request not answered within 10 s counts as not answered (status 0, judged like any answer); the driver then stops "
+        "that scenario (the abandoned handler keeps running in the driver process)",
     ]
     c.trusted = ["asset generator ground truth / independent VoD parse", "harness/drive/c14 URL construction and wall-time measurement", "TLC"]
 
@@ -101,5 +101,4 @@ def run(tier, replay=None):
     c.extra["traffic_scenarios"] = st.get("traffic_scenarios")
     c.extra["slow_or_hang_requests"] = st.get("sleeping_requests")
     c.extra["unanswered_requests_by_class"] = st.get("unanswered")
-    c.extra["skipped_scenarios_after_unanswered_canary"] = st.get("skipped_scenarios")
     return c.finish()
